@@ -64,7 +64,17 @@ extern int mpt_queue_crop(MPT_STRUCT(queue) *queue, size_t pos, size_t len)
 	
 	/* move data over segments */
 	if (high) {
-		uint8_t *src = ((uint8_t *) queue->base) + len - low;
+		uint8_t *src;
+		/* removed range ends in lower part: close gap there first */
+		if (len < low) {
+			low -= len;
+			(void) memmove(base, base+len, low);
+			base += low;
+			post -= low;
+			/* remaining gap at end of lower part */
+			low = len;
+		}
+		src = ((uint8_t *) queue->base) + len - low;
 		if (post <= low) {
 			memcpy(base, src, post);
 			ret = 1;
